@@ -38,22 +38,144 @@ fn hash_row_follows_rule<const W: usize>(p: usize) {
     let (row, bytes) = row_of::<W>();
     let d = hash_row::<HR, F64>(&row, p);
     let spec = mk::rowhash_spec(0, &bytes[..8 * W], 8, p);
-    vcheck!("C28.rowhash.verifier.follows_rule", match spec {
+    let ok = match spec {
         Some((next, out)) => next == mk::calls() && d.as_bytes()[..DN] == out,
         None => false,
-    });
+    };
+    vcheck!("C28.rowhash.verifier.follows_rule", ok);
+    // C01: prover and verifier derive the same leaf for the same row (both follow the one rule)
+    vcheck!("C01.rowhash.verifier.same_rule_as_prover", ok);
 }
 
-//# harness: fn=verifier::channel::hash_row; label=bounded(row widths 1..=6, partition sizes 1..=width; every element, any hash function); tier=quick; uses=hash_row_follows_rule,row_of; timeout=600
+/// the same rule for a row over the quadratic extension (auxiliary trace rows, constraint composition rows):
+/// the partition size counts extension elements, the hashed bytes are the elements' base-field coordinates
+fn hash_row_follows_rule_quad<const W: usize>(p: usize) {
+    use math::fields::QuadExtension;
+    type Q = QuadExtension<F64>;
+    mk::reset();
+    let mut row = [Q::ZERO; W];
+    let mut i = 0;
+    while i < W {
+        let (a, b) = (vs::any_u64(), vs::any_u64());
+        vs::assume(a < 0xffffffff00000001 && b < 0xffffffff00000001);
+        row[i] = Q::new(F64::from_mont(a), F64::from_mont(b));
+        i += 1;
+    }
+    let d = hash_row::<HR, Q>(&row, p);
+    let spec = mk::rowhash_spec(0, Q::elements_as_bytes(&row), 16, p);
+    let ok = match spec {
+        Some((next, out)) => next == mk::calls() && d.as_bytes()[..DN] == out,
+        None => false,
+    };
+    vcheck!("C28.rowhash.verifier.follows_rule.extension_field", ok);
+    vcheck!("C01.rowhash.verifier.same_rule_as_prover.extension_field", ok);
+}
+
+//# harness: fn=verifier::channel::hash_row (row width 1, partition size 1: one partition: plain hash_elements); label=bounded(row of 1 base-field elements, partition size 1; every element, any hash function); tier=quick; uses=hash_row_follows_rule,row_of; timeout=600
 #[cfg_attr(kani, kani::proof)]
 #[cfg_attr(kani, kani::unwind(34))]
 #[cfg_attr(kani, kani::stub(alloc::fmt::format, vs::fake_format))]
-pub fn k_c28_verifier_hash_row() {
+pub fn k_c28_verifier_hash_row_w1_p1() {
     hash_row_follows_rule::<1>(1);
-    hash_row_follows_rule::<4>(4);
-    hash_row_follows_rule::<4>(2);
-    hash_row_follows_rule::<5>(2);
-    hash_row_follows_rule::<6>(4);
-    hash_row_follows_rule::<3>(1);
-    vreach!("C28.verifier.reach");
+    vreach!("C28.verifier.w1_p1.reach");
 }
+
+//# harness: fn=verifier::channel::hash_row (row width 4, partition size 4: one partition: plain hash_elements); label=bounded(row of 4 base-field elements, partition size 4; every element, any hash function); tier=quick; uses=hash_row_follows_rule,row_of; timeout=600
+#[cfg_attr(kani, kani::proof)]
+#[cfg_attr(kani, kani::unwind(34))]
+#[cfg_attr(kani, kani::stub(alloc::fmt::format, vs::fake_format))]
+pub fn k_c28_verifier_hash_row_w4_p4() {
+    hash_row_follows_rule::<4>(4);
+    vreach!("C28.verifier.w4_p4.reach");
+}
+
+//# harness: fn=verifier::channel::hash_row (row width 4, partition size 2: several chunks); label=bounded(row of 4 base-field elements, partition size 2; every element, any hash function); tier=quick; uses=hash_row_follows_rule,row_of; timeout=600
+#[cfg_attr(kani, kani::proof)]
+#[cfg_attr(kani, kani::unwind(34))]
+#[cfg_attr(kani, kani::stub(alloc::fmt::format, vs::fake_format))]
+pub fn k_c28_verifier_hash_row_w4_p2() {
+    hash_row_follows_rule::<4>(2);
+    vreach!("C28.verifier.w4_p2.reach");
+}
+
+//# harness: fn=verifier::channel::hash_row (row width 5, partition size 2: several chunks); label=bounded(row of 5 base-field elements, partition size 2; every element, any hash function); tier=quick; uses=hash_row_follows_rule,row_of; timeout=600
+#[cfg_attr(kani, kani::proof)]
+#[cfg_attr(kani, kani::unwind(34))]
+#[cfg_attr(kani, kani::stub(alloc::fmt::format, vs::fake_format))]
+pub fn k_c28_verifier_hash_row_w5_p2() {
+    hash_row_follows_rule::<5>(2);
+    vreach!("C28.verifier.w5_p2.reach");
+}
+
+//# harness: fn=verifier::channel::hash_row (row width 6, partition size 4: several chunks); label=bounded(row of 6 base-field elements, partition size 4; every element, any hash function); tier=quick; uses=hash_row_follows_rule,row_of; timeout=600
+#[cfg_attr(kani, kani::proof)]
+#[cfg_attr(kani, kani::unwind(34))]
+#[cfg_attr(kani, kani::stub(alloc::fmt::format, vs::fake_format))]
+pub fn k_c28_verifier_hash_row_w6_p4() {
+    hash_row_follows_rule::<6>(4);
+    vreach!("C28.verifier.w6_p4.reach");
+}
+
+//# harness: fn=verifier::channel::hash_row (row width 3, partition size 1: several chunks); label=bounded(row of 3 base-field elements, partition size 1; every element, any hash function); tier=quick; uses=hash_row_follows_rule,row_of; timeout=600
+#[cfg_attr(kani, kani::proof)]
+#[cfg_attr(kani, kani::unwind(34))]
+#[cfg_attr(kani, kani::stub(alloc::fmt::format, vs::fake_format))]
+pub fn k_c28_verifier_hash_row_w3_p1() {
+    hash_row_follows_rule::<3>(1);
+    vreach!("C28.verifier.w3_p1.reach");
+}
+
+//# harness: fn=verifier::channel::hash_row (row width 4, partition size 8: partition size larger than the row: one chunk, still merged); label=bounded(row of 4 base-field elements, partition size 8; every element, any hash function); tier=quick; uses=hash_row_follows_rule,row_of; timeout=600
+#[cfg_attr(kani, kani::proof)]
+#[cfg_attr(kani, kani::unwind(34))]
+#[cfg_attr(kani, kani::stub(alloc::fmt::format, vs::fake_format))]
+pub fn k_c28_verifier_hash_row_w4_p8() {
+    hash_row_follows_rule::<4>(8);
+    vreach!("C28.verifier.w4_p8.reach");
+}
+
+//# harness: fn=verifier::channel::hash_row (row width 2, partition size 3: partition size larger than the row: one chunk, still merged); label=bounded(row of 2 base-field elements, partition size 3; every element, any hash function); tier=quick; uses=hash_row_follows_rule,row_of; timeout=600
+#[cfg_attr(kani, kani::proof)]
+#[cfg_attr(kani, kani::unwind(34))]
+#[cfg_attr(kani, kani::stub(alloc::fmt::format, vs::fake_format))]
+pub fn k_c28_verifier_hash_row_w2_p3() {
+    hash_row_follows_rule::<2>(3);
+    vreach!("C28.verifier.w2_p3.reach");
+}
+
+//# harness: fn=verifier::channel::hash_row over QuadExtension (row of 2 extension elements, partition size 2); label=bounded(row of 2 quadratic-extension elements, partition size 2; every element, any hash function); tier=quick; uses=hash_row_follows_rule_quad; timeout=600
+#[cfg_attr(kani, kani::proof)]
+#[cfg_attr(kani, kani::unwind(34))]
+#[cfg_attr(kani, kani::stub(alloc::fmt::format, vs::fake_format))]
+pub fn k_c28_verifier_hash_row_ext_w2_p2() {
+    hash_row_follows_rule_quad::<2>(2);
+    vreach!("C28.verifier_ext.w2_p2.reach");
+}
+
+//# harness: fn=verifier::channel::hash_row over QuadExtension (row of 2 extension elements, partition size 1); label=bounded(row of 2 quadratic-extension elements, partition size 1; every element, any hash function); tier=quick; uses=hash_row_follows_rule_quad; timeout=600
+#[cfg_attr(kani, kani::proof)]
+#[cfg_attr(kani, kani::unwind(34))]
+#[cfg_attr(kani, kani::stub(alloc::fmt::format, vs::fake_format))]
+pub fn k_c28_verifier_hash_row_ext_w2_p1() {
+    hash_row_follows_rule_quad::<2>(1);
+    vreach!("C28.verifier_ext.w2_p1.reach");
+}
+
+//# harness: fn=verifier::channel::hash_row over QuadExtension (row of 3 extension elements, partition size 2); label=bounded(row of 3 quadratic-extension elements, partition size 2; every element, any hash function); tier=quick; uses=hash_row_follows_rule_quad; timeout=600
+#[cfg_attr(kani, kani::proof)]
+#[cfg_attr(kani, kani::unwind(34))]
+#[cfg_attr(kani, kani::stub(alloc::fmt::format, vs::fake_format))]
+pub fn k_c28_verifier_hash_row_ext_w3_p2() {
+    hash_row_follows_rule_quad::<3>(2);
+    vreach!("C28.verifier_ext.w3_p2.reach");
+}
+
+//# harness: fn=verifier::channel::hash_row over QuadExtension (row of 2 extension elements, partition size 4); label=bounded(row of 2 quadratic-extension elements, partition size 4; every element, any hash function); tier=quick; uses=hash_row_follows_rule_quad; timeout=600
+#[cfg_attr(kani, kani::proof)]
+#[cfg_attr(kani, kani::unwind(34))]
+#[cfg_attr(kani, kani::stub(alloc::fmt::format, vs::fake_format))]
+pub fn k_c28_verifier_hash_row_ext_w2_p4() {
+    hash_row_follows_rule_quad::<2>(4);
+    vreach!("C28.verifier_ext.w2_p4.reach");
+}
+
